@@ -132,6 +132,11 @@ def check(case, ctx):
     cfg = ctx.call("build", lib_cfg, M, g, case.get("perm"))
     V = set(cfg.V)
     inp = rules_of(cfg)
+    # has_unary_cycle agrees with the harness' own cycle search on the unary-rule graph
+    U = [(h, b[0], i) for i, (_, h, b) in enumerate(inp) if len(b) == 1 and b[0] not in V]
+    huc = ctx.call("has_unary_cycle", cfg.has_unary_cycle)
+    if not isinstance(huc, LibRaised):
+        ctx.check("has_unary_cycle", bool(huc) == (cfgref.find_cycle_rule(U) is not None), lambda: f"has_unary_cycle() = {huc} but the unary graph {[(h, y) for h, y, _ in U]} says otherwise")
     for name, fn, pred in CHECKS:
         if pred(inp, V, cfg.S) is not None:
             ctx.nontrivial = True
